@@ -202,6 +202,10 @@ func main() {
 		runC01(w, *seed, *n)
 		return
 	}
+	if *mode == "c02ctx" {
+		runC02Ctx(w)
+		return
+	}
 	if *mode == "c02" {
 		runC02(w, *seed, *n, *depth, *stride)
 		return
